@@ -26,7 +26,7 @@ CHECKS = {
             'C17.hist_comment: in every state a Comment object reaches by extension/trim/+/pour/render, in any order, it renders '
             'as the // rendering of its current lines; C19.files_code_independent for the files clause; '
             'tie: differential runs of cpp_gen.Comment on hostile text, Comment object histories, build pairs that differ '
-            'only in copyright/creator (incl. texts whose first line already looks like a comment).', '§6 C19', ''),
+            'only in copyright/creator (incl. texts whose first line already looks like a comment); histories over several blocks incl. copy.deepcopy (C17.clone_equal, C17.clone_independent: a clone is equal and separate).', '§6 C19', ''),
 }
 
 CHECKS.update({
@@ -41,8 +41,8 @@ CHECKS.update({
             'the only one on the scope chain and of the hinted kind, every failure is FindError, test and getter agree).',
             '§6 C14', ''),
     'C15': ('Lean theorems C15.no_internal (for every JSON value only the two documented errors) and '
-            'C15.out_event_refused over a model that carries Python failure modes; tie: mutation stream '
-            '(delete/retype/retag) + arbitrary roots + skipped elements (unknown <class>) with every field retyped in turn, outcome class compared.', '§6 C15',
+            'C15.out_event_refused over a model that carries Python failure modes; C15.bad_document_refused: the clause read off the INPUT - a document in which an interface reachable from the root lists an out event with an out parameter is never parsed successfully, whatever else it contains; tie: mutation stream '
+            '(delete/retype/retag) + arbitrary roots + skipped elements (unknown <class>) with every field retyped in turn, outcome class compared; the monitor evaluates the out-event clause on the result and on the input document.', '§6 C15',
             'Interpreter stack depth is not modelled (documents up to the loader limit of ~509 nested namespaces are exercised).'),
     'C16': ('Lean theorem C16.history_free over the parser-object state machine (any history of new/load/process on '
             'any instances) + instances_isolated; tie: random histories against the real class (incl. long-lived instances '
@@ -62,7 +62,7 @@ CHECKS.update({
             '§0, §6 C06', 'Compiler acceptance is not provable in the model; seven recorded findings (known_findings.json).'),
     'C07': ('Monitor: specification lookup (unique member of the scope chain, of the right kind) decides accessor and lambda '
             'types or demands a library error, on name-clash model families; tie: byte-exact model of the builder; Lean: '
-            'C14.find_fqn_spec (lookup = chain filter) underlies both; C07-specific theorems listed in the evidence.', '§6 C07', ''),
+            'C14.find_fqn_spec (lookup = chain filter) underlies both; C07-specific theorems listed in the evidence. Stream mc-then-plain: a multi-client shell first, then the same parsed model with every port rerouted and a formal spelled by the reply enum\'s simple name (lookups see the declarations as written, whatever an earlier build did).', '§6 C07', ''),
     'C08': ('Lean: order-freedom theorems of the port-selection model up to build_cfg_order_free, MD5 (RFC 1321 vectors by kernel evaluation); tie: child interpreters with PYTHONHASHSEED 0..15 x shuffled set construction orders x a different order of the builds inside each process, sha256 of all files equal across children and equal to the Lean model output; GeneratedContent.hash = model MD5.',
             '§6 C08', ''),
     'C09': ("Lean theorems C09.*: the semantics reads the facility initialisers from the IR's member-initialiser list (milFacts); createConstructor_mil / build_milFacts say what the generator emits; build_create / build_import: for every accepted model and configuration construction succeeds iff (create) the prototype carries neither dispatcher nor runtime / (import) both, with the ownership/identity bookkeeping of each origin; no_check_no_failure; Locator()/runtime members iff create; tie: compiled programs over all 2^3 locator contents x origin + text correspondence.",
@@ -84,12 +84,12 @@ CHECKS.update({
     'C03': ('Lean theorems C03.* over the port-selection model (the if/elif chain = explicit-name-first-else-covering-'
             'wildcard, totality of the matched dictionary, every listed fault rejected with the configuration error, '
             'order freedom, at most one semantics); tie: exhaustive selections up to 2 (quick) / 3 (thorough) names per '
-            'side through PortsCfg.match and a through-build stream (injected ports, uncovered ports).', '§6 C03', ''),
+            'side through PortsCfg.match (the user\'s selection objects are snapshotted around the call and the same configuration object is asked twice: the resolution is a function of configuration and port names) and a through-build stream (injected ports, uncovered ports).', '§6 C03', ''),
     'C20': ('PARTIAL. Lean theorems C20.* (declaration = definition + default, declaration/definition shapes, definition '
             'ignores prefix/override/defaults/explicit, no definition when initialised, balanced namespace/struct blocks); '
             'tie: random descriptors through the real cpp_gen classes (defaults with significant whitespace, contents blocks with a '
             'header, blocks built without contents and extended through the getter); a signature reader evaluates the clauses on the '
-            'rendered text, incl. that the declaration carries exactly the described default values.', '§6 C20', 'Compiler acceptance of arbitrary compositions is not expressible in the model.'),
+            'rendered text, incl. that the declaration carries exactly the described default values and that virt-specifiers precede the initialiser.', '§6 C20', 'Compiler acceptance of arbitrary compositions is not expressible in the model.'),
 })
 
 NOT_YET = {}
